@@ -139,6 +139,14 @@ func check(args []string) int {
 			for _, e := range st.Errors {
 				c.Errors = append(c.Errors, e)
 			}
+			// the stored seeded changes of independent sub-agents, through the overlay
+			ss := rules.SelfTestSeeded(id, *repo, verifRoot())
+			extra["selftest_seeded"] = ss.Rows
+			extra["selftest_seeded_killed"] = ss.Killed
+			extra["selftest_seeded_total"] = ss.Total
+			for _, e := range ss.Errors {
+				c.Errors = append(c.Errors, e)
+			}
 		}
 		wall := time.Since(t0).Seconds() + loadS
 		out, err := report.Finish(c, id, *tier, seed, wall, prop.Explanation, prop.Assumptions,
